@@ -25,6 +25,8 @@ OBLIGATIONS = [NS + t for t in [
     "sersic_pointsource_split", "doublesersic_split", "component_total_scales", "sersic2d_eq_sersicOfZ", "sersic_radial_norm",
     "repo_bn_pos", "hat_partition", "pixel_pointsource_total",
 ]] + ["Pysersic.Render.synth_dc", "Pysersic.Render.sum_rootE", "Pysersic.Props.C03.psfFft_dc"]
+# kernels whose translated source text (Gen/Kernels.lean) is proved equal to the model kernel this property's theorems are about
+GEN_KERNELS = ["sersic1D_cx", "render_gaussian_pixel_term", "render_gaussian_fourier_term", "render_sersic_2d"]
 MIRRORED_FILES = ["pysersic/rendering.py"]
 ASSUMPTIONS = [
     "numerical clauses (how close ΣA_k(n) is to 1; light captured by the footprint / oversampling box) are observed with the property's tolerances, not proved",
